@@ -29,6 +29,9 @@ def run(ctx):
     ctx.rule("R3", "abandoned assembly consumes nothing: NewPacketGuard has no Drop impl")
     ctx.rule("R5", "reconstruction window (RFC 9000 A.3): PacketNumber::decode moves the candidate by a FULL window (1 << nbits) and "
                    "decides to do so by comparing with expected -/+ HALF a window; operand classes extracted by def-use")
+    ctx.rule("R6", "the truncation base is the peer's acknowledgement state: every call of PacketNumber::encode(pn, base) passes the journal's "
+                   "largest_acked_pktno as base (not a local bookkeeping position such as the journal's front offset) and the next "
+                   "packet number as pn")
     ctx.rule("R4", "truncation width table (RFC 9000 A.2): the guard under which PacketNumber::encode picks a w-bit encoding "
                    "bounds the distance d = pn - largest_acked by 2*d < 2^w (affine guard extraction + constant arithmetic)")
 
@@ -243,5 +246,17 @@ def run(ctx):
                    "operand class found: %s (FULL = 1 << nbits, HALF = FULL / 2) — with any other window a packet that arrives after a gap "
                    "at a window boundary is reconstructed one window off, fails authentication (wrong nonce) or is rejected as too old, "
                    "and so is every later packet of that space" % found.get(k))
+    # ---------------------------------------------------------------- R6
+    esites = prog.call_sites(r"packet::number::PacketNumber::encode$")
+    ctx.floor("R6", "call sites of PacketNumber::encode", len(esites), 1)
+    for (b, i, t) in esites:
+        ctx.touch(b)
+        r0 = sorted(value_roles(b, t["args"][0])) if len(t["args"]) > 0 else []
+        r1 = sorted(value_roles(b, t["args"][1])) if len(t["args"]) > 1 else []
+        ok = r1 == ["field:SentJournal.largest_acked_pktno"] and any("IndexDeque::largest" in r for r in r0)
+        ctx.ob("R6", "%s|encode(next pn, largest acked by the peer)" % b.short, ok, b.where(t["line"]),
+               "pn argument: %s; base argument: %s — the receiver centres its window on what it has received; only the peer's "
+               "acknowledgements bound how far that can lag behind, so any other base under-counts the unacknowledged distance and "
+               "picks an encoding that is too short" % (r0, r1))
     ctx.assume("IndexDeque::largest() == offset + len (value-level)")
     ctx.assume("the journal Mutex serialises assemblies of one space (std::sync::Mutex contract)")
